@@ -40,6 +40,7 @@ def opt_text(rnd, none_p=0.15, **kw):
     return [] if rnd.random() < none_p else [T(text(rnd, **kw))]
 
 
+TYPED = False
 IPVFUTURE = False     # bases with an IPvFuture host (known finding bracketed-non-ipv6) only where asked for
 
 
@@ -76,7 +77,7 @@ def rnd_build(rnd, surrogate_p=0.0):
     if r < 0.3:
         kw["query_string"] = T(text(rnd, surrogate_p=surrogate_p))
     elif r < 0.6:
-        kw["query"] = rnd_qarg(rnd, forms=("mapping", "pairs"), surrogate_p=surrogate_p)
+        kw["query"] = rnd_qarg(rnd, forms=("mapping", "pairs"), surrogate_p=surrogate_p, typed=TYPED)
     if rnd.random() < 0.5:
         kw["fragment"] = T(text(rnd, surrogate_p=surrogate_p))
     return {"op": "build", "kw": kw}
@@ -97,7 +98,7 @@ def rnd_qarg(rnd, forms=("str", "mapping", "multidict", "pairs", "tuplepairs", "
         if f == "kwargs" and (not k or not isinstance(k, str)):
             k = "k"
         if typed and rnd.random() < 0.4:
-            v = rnd.choice([0, -1, 10 ** 9, 1.5, 1e100, 1e16, float("nan"), float("inf"), float("-inf"), True, False, None, b"x", -0.0,
+            v = rnd.choice([0, -1, 10 ** 9, 1.5, 1e100, 1e16, -2.5e20, 1e-7, float("nan"), float("inf"), float("-inf"), True, False, None, b"x", -0.0,
                             [1, "x"], ["a", "b"], (), [], (1.5, 2)])
         elif f in ("mapping", "multidict") and rnd.random() < 0.2:
             v = [text(rnd, 1), text(rnd, 1)]
@@ -159,8 +160,9 @@ def rnd_step(rnd, ops=TEXT_OPS, surrogate_p=0.0, typed=False, encoded_p=0.0):
 
 def gen(params):
     """mode "chains": n random programs base + `depth` steps."""
-    global IPVFUTURE
+    global IPVFUTURE, TYPED
     IPVFUTURE = params.get("ipvfuture", False)
+    TYPED = params.get("typed", False)
     rnd = random.Random(params.get("seed", 0))
     ops = params.get("ops", TEXT_OPS)
     fields = params.get("fields")
